@@ -2,6 +2,8 @@ package main
 
 import (
 	"crypto"
+	"crypto/ecdsa"
+	"crypto/elliptic"
 	"crypto/sha1"
 	"crypto/sha256"
 	"crypto/sha512"
@@ -136,6 +138,16 @@ func runC17(c *Ctx) {
 		}
 	}
 	_ = crypto.SHA1
+	// 2'. the iteration counts at the end of the 16-bit range, under a watchdog (a counter of the field's own width that is
+	//     compared with `<=` never gets past 65535)
+	for _, iter := range []int{255, 256, 32767, 32768, 65534, 65535} {
+		ls := [][]byte{[]byte("Iter"), []byte("example")}
+		salt := r.Bytes(4)
+		name := presentLabels(ls)
+		got := runTimed(func() string { return dns.HashName(name, dns.SHA1, uint16(iter), hex.EncodeToString(salt)) }, 30*time.Second)
+		want := b32hex.EncodeToString(refHashName(ls, iter, salt))
+		c.Pred("nsec3hash", "hashname-vs-rfc", fmt.Sprintf("name=%s salt=%s iter=%d", hxs(name), hex.EncodeToString(salt), iter), strings.EqualFold(got, want), got, want, true)
+	}
 	// 2. NSEC3 hashes
 	n = c.Scale(1500, 40000)
 	for i := 0; i < n; i++ {
@@ -143,7 +155,7 @@ func runC17(c *Ctx) {
 		salt := r.Bytes([]int{0, 0, 1, 4, 8, 16, 255}[r.Intn(7)])
 		iter := []int{0, 1, 2, 10, 100, 150}[r.Intn(6)]
 		if i%500 == 0 {
-			iter = []int{1000, 2500, 65535}[r.Intn(3)]
+			iter = []int{1000, 2500, 65534}[r.Intn(3)]
 		}
 		name := randCase(r, presentLabels(ls))
 		saltS := hex.EncodeToString(salt)
@@ -325,6 +337,61 @@ func runC17(c *Ctx) {
 				}
 				c.Pred("keys", "key-read-from-text", fmt.Sprintf("%s variant=%d", in, vi), res == "ok", res, "a key that signs for this DNSKEY", true)
 			}
+		}
+	}
+	// 5b. ECDSA keys whose private scalar is shorter than the field (top octets zero — one generated key in 256): the
+	//     exported text is read back to a key that signs for the same DNSKEY
+	for _, ks := range []kspec{{dns.ECDSAP256SHA256, 256}, {dns.ECDSAP384SHA384, 384}} {
+		curve, n := elliptic.P256(), 32
+		if ks.bits == 384 {
+			curve, n = elliptic.P384(), 48
+		}
+		var ds []*big.Int
+		for _, sh := range []uint{0, 1, 7, 8, 9, 64, uint(8*n - 16), uint(8*n - 9), uint(8*n - 8)} {
+			ds = append(ds, new(big.Int).Lsh(big.NewInt(1), sh))
+		}
+		ds = append(ds, new(big.Int).Sub(new(big.Int).Lsh(big.NewInt(1), uint(8*n-8)), big.NewInt(1))) // n-1 octets, all ones
+		for k := 0; k < c.Scale(2, 20); k++ {
+			b := r.Bytes(n)
+			b[0] = 0
+			if k%2 == 1 {
+				b[1] = 0
+			}
+			ds = append(ds, new(big.Int).SetBytes(b))
+		}
+		for _, d := range ds {
+			if d.Sign() == 0 {
+				continue
+			}
+			priv := new(ecdsa.PrivateKey)
+			priv.Curve = curve
+			priv.D = d
+			priv.X, priv.Y = curve.ScalarBaseMult(d.Bytes())
+			pub := append(priv.X.FillBytes(make([]byte, n)), priv.Y.FillBytes(make([]byte, n))...)
+			key := &dns.DNSKEY{Hdr: dns.RR_Header{Name: "example.org.", Rrtype: dns.TypeDNSKEY, Class: 1, Ttl: 3600}, Flags: 256, Protocol: 3, Algorithm: ks.alg, PublicKey: toB64(pub)}
+			in := fmt.Sprintf("alg=%d scalar of %d octets", ks.alg, len(d.Bytes()))
+			res := guard(func() string {
+				txt := key.PrivateKeyString(priv)
+				pk, err := key.NewPrivateKey(txt)
+				if err != nil {
+					return "re-read: " + err.Error()
+				}
+				signer, _ := pk.(crypto.Signer)
+				if signer == nil {
+					return "not a signer"
+				}
+				set := []dns.RR{&dns.A{Hdr: dns.RR_Header{Name: "a.example.org.", Rrtype: dns.TypeA, Class: 1, Ttl: 60}, A: []byte{192, 0, 2, 7}}}
+				sig := &dns.RRSIG{Hdr: dns.RR_Header{Name: "a.example.org.", Rrtype: dns.TypeRRSIG, Class: 1, Ttl: 60}, Algorithm: ks.alg, SignerName: "example.org.",
+					KeyTag: key.KeyTag(), Inception: uint32(time.Now().Unix() - 1000), Expiration: uint32(time.Now().Unix() + 1000)}
+				if e := sig.Sign(signer, set); e != nil {
+					return "sign: " + e.Error()
+				}
+				if e := sig.Verify(key, set); e != nil {
+					return "verify: " + e.Error()
+				}
+				return "ok"
+			})
+			c.Pred("keys", "short-scalar-export-import", in, res == "ok", res, "a key that signs for this DNSKEY", true)
 		}
 	}
 	// 6. two keys of one owner and algorithm whose key tags collide are still two keys: a signature verifies under the
